@@ -55,7 +55,10 @@ type Tree struct {
 	leafSequence   uint32
 	branchSequence uint32
 	isReplaying    bool
-	evictionDepth  int8
+	// replayValue is the value of the leaf being replayed: in replay mode Set
+	// is given the stored leaf hash in place of the value.
+	replayValue   []byte
+	evictionDepth int8
 }
 
 type TreeOptions struct {
@@ -404,6 +407,9 @@ func (tree *Tree) recursiveSet(node *Node, key []byte, value []byte) (
 			tree.mutateNode(node)
 			if tree.isReplaying {
 				node.hash = value
+				if tree.storeLeafValues {
+					node.value = tree.replayValue
+				}
 			} else {
 				if wasDirty {
 					tree.workingBytes -= node.sizeBytes()
@@ -663,6 +669,9 @@ func (tree *Tree) NewLeafNode(key []byte, value []byte) *Node {
 
 	if tree.isReplaying {
 		node.hash = value
+		if tree.storeLeafValues {
+			node.value = tree.replayValue
+		}
 	} else {
 		node.value = value
 		node._hash()
